@@ -776,6 +776,37 @@ func (m *Machine) builtin(f *Frame, b *ssa.Builtin, args []value, c *ssa.CallCom
 			r = m.tb.Ite(lt, t, r)
 		}
 		return r
+	case "SliceData":
+		sl := args[0].(Slice)
+		if sl.obj == nil {
+			return Ptr{}
+		}
+		return Ptr{obj: sl.obj, idx: sl.off}
+	case "String": // unsafe.String(ptr, len): an immutable snapshot of the bytes
+		p := args[0].(Ptr)
+		n := m.concInt(args[1].(*Term), true, "unsafe.String")
+		if n == 0 {
+			return Str{}
+		}
+		bs := make([]*Term, n)
+		for i := range bs {
+			bs[i] = p.obj.cells[p.idx+i].(*Term)
+		}
+		return mkStr(bs)
+	case "StringData":
+		st := args[0].(Str)
+		if st.Len() == 0 {
+			return Ptr{}
+		}
+		sl := m.newByteSlice(append([]*Term(nil), st.Bytes(m.tb)...), "stringdata")
+		return Ptr{obj: sl.obj, idx: 0}
+	case "Slice": // unsafe.Slice(ptr, len)
+		p := args[0].(Ptr)
+		n := m.concInt(args[1].(*Term), true, "unsafe.Slice")
+		if p.obj == nil {
+			return Slice{esz: 1}
+		}
+		return Slice{obj: p.obj, off: p.idx, len: n, cap: n, esz: 1}
 	case "ssa:wrapnilchk":
 		p := args[0].(Ptr)
 		if p.obj == nil {
